@@ -288,6 +288,8 @@ where
         f: F,
     ) -> B {
         let range_bytes = (to - from) * Self::SIZE_OF_T;
+        #[cfg(feature = "verif")]
+        let range_bytes = rawdb::verif::crossover_adjust(range_bytes);
         if range_bytes > MMAP_CROSSOVER_BYTES {
             crate::CompressedIoSource::new(self, from, to).fold(init, f)
         } else {
@@ -304,6 +306,8 @@ where
         f: F,
     ) -> std::result::Result<B, E> {
         let range_bytes = (to - from) * Self::SIZE_OF_T;
+        #[cfg(feature = "verif")]
+        let range_bytes = rawdb::verif::crossover_adjust(range_bytes);
         if range_bytes > MMAP_CROSSOVER_BYTES {
             crate::CompressedIoSource::new(self, from, to).try_fold(init, f)
         } else {
